@@ -55,7 +55,7 @@ TRUSTED_EXTRA = ["pathos / multiprocess / dill process pools (exercised, not mod
 # ----------------------------------------------------------------------------------------
 
 def gen_problem_spec(rng, T: int):
-    kind = rng.choice(["single", "single", "multi", "multi", "multibool", "user", "usermax"])
+    kind = rng.choice(["single", "single", "multi", "multi", "multibool", "user", "usermax", "criteria"])
     if kind == "single":
         rows = [[rng.randint(-5, 5)] for _ in range(T)]
         return {"kind": "single", "min": rng.random() < 0.5, "rows": rows}
@@ -68,8 +68,9 @@ def gen_problem_spec(rng, T: int):
         return {"kind": "multi", "mins": [rng.random() < 0.5 for _ in range(n)], "rows": rows}
     if kind == "multibool":
         return {"kind": "multibool", "min": rng.random() < 0.5, "rows": rows}
-    if kind == "user":
-        return {"kind": "user", "w": [rng.randint(-2, 2) for _ in range(arity)], "rows": rows}
+    if kind in ("user", "criteria"):
+        # "criteria": the aggregate is a function of the PROGRAM (best_individual_criteria_function), here the same weighted sum
+        return {"kind": kind, "w": [rng.randint(-2, 2) for _ in range(arity)], "rows": rows}
     return {"kind": "usermax", "rows": rows}
 
 
@@ -81,7 +82,7 @@ def wire_kind(spec):
         return ["multi", list(spec["mins"])]
     if k == "multibool":
         return ["multi", [spec["min"]] * len(spec["rows"][0])]
-    if k == "user":
+    if k in ("user", "criteria"):
         return ["user", list(spec["w"])]
     return "usermax"
 
@@ -113,6 +114,9 @@ def build_problem(spec, log, tag, delays=None):
     if k == "user":
         w = list(spec["w"])
         return MultiObjectiveProblem([False] * len(w), ff, aggregate_fitness=lambda comps: sum(a * c for a, c in zip(w, comps)))
+    if k == "criteria":
+        w = list(spec["w"])
+        return MultiObjectiveProblem([False] * len(w), ff, best_individual_criteria_function=lambda ph: sum(a * c for a, c in zip(w, rows[ph[1]])))
     return MultiObjectiveProblem([False] * len(rows[0]), ff, aggregate_fitness=lambda comps: max(comps) if comps else 0)
 
 
@@ -165,6 +169,8 @@ def describe(spec):
         return f"MultiObjectiveProblem(minimize={spec['min']}) [default aggregate]"
     if k == "user":
         return f"MultiObjectiveProblem(aggregate_fitness=dot({spec['w']}))"
+    if k == "criteria":
+        return f"MultiObjectiveProblem(best_individual_criteria_function=dot({spec['w']}) of the program's components)"
     return "MultiObjectiveProblem(aggregate_fitness=max)"
 
 
@@ -341,6 +347,9 @@ CORPUS_PAR = [
      "calls": [(0, [0, 1]), (0, [2, 3, 0])]},
     {"specs": [{"kind": "multibool", "min": False, "rows": [[2], [1]]}, {"kind": "single", "min": True, "rows": [[4], [6]]}], "keys": [0, 1, 1], "pre": [],
      "calls": [(1, [0, 1]), (0, [0, 1, 2]), (0, [2, 0])]},
+    # the aggregate is computed from the PROGRAM by a user criterion (not from the components)
+    {"specs": [{"kind": "criteria", "w": [2, -1], "rows": [[1, 5], [3, 0], [2, 2]]}], "keys": [0, 1, 2], "pre": [],
+     "calls": [(0, [0, 1, 2]), (0, [2, 1])]},
 ]
 
 
